@@ -442,9 +442,17 @@ func (w *vfmWorld) serve(pr *vfmPeer) {
 }
 
 func (w *vfmWorld) teardown() {
-	w.resume()
+	// let a held start-up run out before the manager is closed, otherwise it registers its handler afterwards
+	if w.resume() {
+		w.settle(false)
+	}
 	if w.mgr != nil && !w.closedM {
+		w.barrier()
 		w.mgr.close()
+		w.closedM = true
+	}
+	if w.mgr != nil {
+		w.settle(false)
 	}
 	w.cancel()
 	for _, pr := range w.peers {
@@ -995,6 +1003,9 @@ func vfmRun(p *vfmProc, sc vfScript) (out []map[string]any) {
 		}
 	}()
 	w = vfmNewWorld(p, nc)
+	if w.ipfs.hasHandler() {
+		vfInfra("a stream handler of an earlier script is still registered on the host")
+	}
 	w.settle(true)
 	w.baseP, w.baseW = vfmCountGoroutines()
 	logLen := 0
